@@ -28,7 +28,7 @@ def run(rep, tier):
     drv = Driver()
     lines, exps, metas = [], [], []
     grouper_stream(rep, r, 150 * scale, lines, exps, metas)
-    phot_stream(rep, r, 10 * scale, lines, exps, metas)
+    phot_stream(rep, r, 60 * scale, lines, exps, metas)
     out = drv.run(lines)
     if out is None:
         rep.tie_broken('model driver failed', drv.error)
@@ -93,7 +93,9 @@ def grouper_stream(rep, r, n, lines, exps, metas):
 
 def render_scene(r, kind):
     from photutils.psf import CircularGaussianPRF, ImagePSF, make_psf_model_image
-    ny, nx = 41, 45
+    # frames: nearly square, clearly wide, clearly tall (a source beyond the short dimension along the long axis)
+    frame = r.choice(['square', 'wide', 'tall'])
+    ny, nx = {'square': (41, 45), 'wide': (33, 61), 'tall': (61, 33)}[frame]
     yy, xx = np.mgrid[0:ny, 0:nx]
     if kind == 'prf':
         model = CircularGaussianPRF(flux=1, fwhm=2.6)
@@ -103,7 +105,9 @@ def render_scene(r, kind):
         model = ImagePSF(d / d.sum() * 4, oversampling=2)
     # clusters whose members overlap each other, but which are far from every other cluster, so that the
     # grouper's single-linkage clusters contain every pair of sources that contaminate each other
-    centres = [(8.0, 8.0), (30.0, 9.0), (10.0, 30.0), (34.0, 31.0), (21.0, 20.0)]
+    centres = {'square': [(8.0, 8.0), (30.0, 9.0), (10.0, 30.0), (34.0, 31.0), (21.0, 20.0)],
+               'wide': [(8.0, 8.0), (30.0, 9.0), (52.0, 10.0), (10.0, 24.0), (34.0, 23.0), (53.0, 24.0)],
+               'tall': [(8.0, 8.0), (9.0, 30.0), (10.0, 52.0), (24.0, 10.0), (23.0, 34.0), (24.0, 53.0)]}[frame]
     r.shuffle(centres)
     srcs = []
     for (cx0, cy0) in centres[:r.randint(1, 4)]:
@@ -115,7 +119,7 @@ def render_scene(r, kind):
             for _try in range(20):                                           # companions stay inside the frame
                 ang, dist = r.uniform(0, 2 * math.pi), r.uniform(3.0, 4.5)
                 cx_, cy_ = bx + dist * math.cos(ang), by + dist * math.sin(ang)
-                if 0.5 <= cx_ <= nx - 1.5 and 0.5 <= cy_ <= ny - 1.5:
+                if 0.5 <= cx_ <= nx - 1.5 and 0.5 <= cy_ <= ny - 1.5 and all(math.hypot(cx_ - s_[0], cy_ - s_[1]) >= 2.9 for s_ in srcs):
                     srcs.append((cx_, cy_, r.uniform(200, 900)))
                     break
     img = np.zeros((ny, nx))
@@ -145,6 +149,20 @@ def phot_stream(rep, r, n, lines, exps, metas):
             mask = np.zeros(img.shape, bool)
             for _ in range(6):
                 mask[r.randrange(ny), r.randrange(nx)] = True
+        # a non-finite pixel two pixels from a source that the user's mask (if any) does not cover: it is ignored like a masked pixel
+        umask = mask
+        if r.random() < 0.4:
+            if mask is None and r.random() < 0.6:
+                mask = np.zeros(img.shape, bool)
+                mask[r.randrange(ny), r.randrange(nx)] = True
+                umask = mask
+            sx_, sy_, _f = srcs[r.randrange(len(srcs))]
+            py_, px_ = int(round(sy_)) + r.choice([-2, 2]), int(round(sx_)) + r.choice([-2, 0, 2])
+            if 0 <= py_ < ny and 0 <= px_ < nx and not (mask is not None and mask[py_, px_]):
+                img = img.copy()
+                img[py_, px_] = r.choice([np.nan, np.inf])
+                mask = (np.zeros(img.shape, bool) if mask is None else mask.copy())
+                mask[py_, px_] = True               # the effective mask, used by the oracles below; the call receives `umask`
         sep = r.choice([6.0, 7.0, 8.0])
         use_gid = r.random() < 0.35
         truth = {i: srcs[i] for i in order}
@@ -170,18 +188,18 @@ def phot_stream(rep, r, n, lines, exps, metas):
         phot = PSFPhotometry(model, fit_shape, grouper=None if no_grouper else SourceGrouper(sep), aperture_radius=4, progress_bar=False,
                              localbkg_estimator=localbkg_estimator)
         replay = {'local_bkg': lbkg, 'grouper': None if no_grouper else 'SourceGrouper', 'model': kind, 'sources': srcs, 'order': order, 'init': {c_: [float(v) for v in init[c_]] for c_ in init.colnames}, 'fit_shape': list(fit_shape), 'min_separation': sep,
-                  'group_id_supplied': use_gid, 'mask': None if mask is None else np.argwhere(mask).tolist()}
+                  'group_id_supplied': use_gid, 'mask': None if umask is None else np.argwhere(umask).tolist(), 'nonfinite_pixels': np.argwhere(~np.isfinite(img)).tolist()}
         try:
             with warnings.catch_warnings():
                 warnings.simplefilter('ignore')
-                res = phot(img, init_params=init, mask=mask)
+                res = phot(img, init_params=init, mask=umask)
         except Exception as e:
             rep.violation(f'psfphot-raises:{type(e).__name__}', f'PSFPhotometry raised {e!r}', replay)
             continue
         nsrc = len(order)
         grouped = len(set(res['group_id'])) < nsrc
         rep.case((kind, tuple(map(tuple, srcs)), tuple(order), fit_shape, sep, use_gid), grouped or mask is not None,
-                 kind=f'psfphot:{kind}' + (':group_id' if use_gid else '') + (':no-grouper' if no_grouper else '') + (':mask' if mask is not None else '') + ('' if lbkg == 'none' else ':local_bkg-' + lbkg),
+                 kind=f'psfphot:{kind}' + (':group_id' if use_gid else '') + (':no-grouper' if no_grouper else '') + (':mask' if umask is not None else '') + (':nonfinite' if not np.isfinite(img).all() else '') + ('' if lbkg == 'none' else ':local_bkg-' + lbkg),
                  sample={'model': kind, 'nsources': nsrc, 'fit_shape': list(fit_shape), 'group_sizes': [int(v) for v in res['group_size']]})
         # (S) rows in input order with ids 1..N
         if list(res['id']) != list(range(1, nsrc + 1)) or not np.allclose(res['x_init'], init['x']) or not np.allclose(res['y_init'], init['y']):
@@ -204,6 +222,21 @@ def phot_stream(rep, r, n, lines, exps, metas):
         if bad:
             rep.violation('truth-not-recovered' + (':grouped' if grouped else ':single'),
                           f'row {bad[0]}: rendered {bad[1]} but fitted {bad[2]}', replay)
+            continue
+        # (S) documented flag bits 1, 2, 4 evaluated directly: npixfit below the fit window size, fit position outside the image, flux <= 0
+        fbad = None
+        for j in range(nsrc):
+            fl = int(res['flags'][j])
+            xf, yf, ff = float(res['x_fit'][j]), float(res['y_fit'][j]), float(res['flux_fit'][j])
+            e1 = int(res['npixfit'][j]) < fit_shape[0] * fit_shape[1]
+            e2 = xf < 0 or yf < 0 or xf > nx or yf > ny
+            e4 = ff <= 0
+            if (bool(fl & 1), bool(fl & 2), bool(fl & 4)) != (e1, e2, e4):
+                fbad = (j, fl, (e1, e2, e4), (xf, yf, ff))
+                break
+        if fbad:
+            rep.violation('flags-ne-documented', f'row {fbad[0]}: flags = {fbad[1]} but (npixfit < window, position outside the {ny}x{nx} image, flux <= 0) = '
+                          f'{fbad[2]} for (x_fit, y_fit, flux_fit) = {fbad[3]}', replay)
             continue
         # (S) group ids / sizes
         gid = [int(v) for v in res['group_id']]
